@@ -805,6 +805,8 @@ class Tr:
         defaults = []
         if ci:
             for an, (ct, vis) in ci.attrs.items():
+                if an == '__weakref__':
+                    continue
                 k = _kind(ct)
                 if k == 'int':
                     defaults.append('    ' * (ind + 1) + '%s = _sx_.IntAttr(%r)' % (an, an))
